@@ -13,7 +13,18 @@ RE = "bibtexparser.middlewares.enclosing.RemoveEnclosingMiddleware."
 AE = "bibtexparser.middlewares.enclosing.AddEnclosingMiddleware."
 MO = "bibtexparser.middlewares.month."
 LB = "bibtexparser.library.Library."
+EN = "bibtexparser.model.Entry."
 PROPS = {
+    "C19": {
+        "level": "other",
+        "level_text": "Mixed. Proved (contracts on the real Entry methods and on Block/Field.__eq__, for every entry with distinct field keys and every key/value): each mapping operation is the ordered-dict operation on the view [(f.key, f)]: replace keeps the position, new keys append, removal closes the gap; fields_dict has the same keys in the same order; ENTRYTYPE/ID lookups; equality <=> same class and pairwise == attributes. Per-operation contracts over the representation invariant give the claim for every operation sequence. Bounded (native, labelled): operation sequences against a Python dict, single-attribute perturbation pairs, copy/deepcopy pairs, items() contents. One known finding (del of an absent key does not raise) is carved out exactly.",
+        "level_note": STD_NOTE + "; instance __dict__ equality is modelled as pairwise == over the schema's attributes of the object's class; list/dict comprehension semantics as assumed builtin contracts.",
+        "modules": ["schema", "model"],
+        "functions": [EN + "fields_dict", EN + "set_field", EN + "pop", EN + "get", EN + "__contains__", EN + "__getitem__", EN + "__setitem__",
+                      EN + "__delitem__", EN + "items", "bibtexparser.model.Block.__eq__", "bibtexparser.model.Field.__eq__"],
+        "native": "p19",
+        "explanation": "proved: per-operation ordered-map postconditions under the distinct-keys invariant, structural equality; bounded: sequences vs dict, perturbation pairs, copies; known finding: del entry[absent] does not raise KeyError",
+    },
     "C08": {
         "level": "other",
         "level_text": "Mixed. Proved for every state satisfying the class invariant (contracts on the real Library methods, both argument forms): the invariant WF (held entries/strings are indexed under their key, index values are typed and keyed, no keyed block held twice) is kept by __init__, add, remove, replace and _add_to_dicts on normal AND exceptional exits -- which is a statement about every finite history; exact functional postconditions over the whole view (append position, first-equal removal with its index entry, replace keeps the position, first-wins duplicate wrapping, entries view, entries_dict is a copy); rollback of a failing remove(single) / replace(not held). Bounded (native histories, labelled): 'every index value is held' as a stand-alone invariant, rollback of the list forms, the five views partition blocks. Two known findings (K1, F11b) are carved out exactly and still reported.",
